@@ -4,6 +4,30 @@ import math, copy
 from fractions import Fraction
 import z3
 
+class DimError(Exception):
+    """dimensional inconsistency found by the units interpretation (a genuine counterexample to homogeneity)"""
+
+class Dim:
+    """mass dimension of a quantity (units interpretation): d is a Fraction, or None for 'any' (exact zero)"""
+    __slots__ = ('d',)
+    def __init__(self, d):
+        self.d = None if d is None else Fraction(d)
+    def __repr__(self):
+        return 'Dim(%s)' % self.d
+
+class UnknownBool:
+    """truth value of a comparison between dimensioned quantities: both outcomes are explored"""
+    pass
+
+def _dim_of(x):
+    if isinstance(x, Dim):
+        return x.d
+    if isinstance(x, bool):
+        return Fraction(0)
+    if isinstance(x, (int, float, Fraction)):
+        return None if x == 0 else Fraction(0)
+    raise EvalError('units interpretation: unsupported operand %r' % (x,))
+
 class EvalError(Exception):
     """construct outside the supported subset, or a domain error in concrete mode"""
 
@@ -54,10 +78,27 @@ class Cx:
 def cx(a):
     return a if isinstance(a, Cx) else Cx(a, 0)
 
+def _dim_addsub(a, b, what):
+    if isinstance(a, UnknownBool) or isinstance(b, UnknownBool):
+        return Dim(0)
+    da, db = _dim_of(a), _dim_of(b)
+    if da is None:
+        return Dim(db)
+    if db is None:
+        return Dim(da)
+    if da != db:
+        raise DimError('%s of quantities with mass dimensions %s and %s' % (what, da, db))
+    return Dim(da)
+
+def _is_dim(x):
+    return isinstance(x, (Dim, UnknownBool))
+
 def add(a, b):
     a, b = _b2i(a), _b2i(b)
     if isinstance(a, Mat) or isinstance(b, Mat):
         return mat_binop(add, a, b)
+    if (_is_dim(a) or _is_dim(b)) and not (isinstance(a, Cx) or isinstance(b, Cx)):
+        return _dim_addsub(a, b, 'sum')
     if isinstance(a, Cx) or isinstance(b, Cx):
         a, b = cx(a), cx(b)
         return Cx(add(a.re, b.re), add(a.im, b.im))
@@ -67,6 +108,8 @@ def add(a, b):
 
 def neg(a):
     a = _b2i(a)
+    if isinstance(a, Dim):
+        return a
     if isinstance(a, Mat):
         return a.map(neg)
     if isinstance(a, Cx):
@@ -77,6 +120,8 @@ def sub(a, b):
     a, b = _b2i(a), _b2i(b)
     if isinstance(a, Mat) or isinstance(b, Mat):
         return mat_binop(sub, a, b)
+    if (_is_dim(a) or _is_dim(b)) and not (isinstance(a, Cx) or isinstance(b, Cx)):
+        return _dim_addsub(a, b, 'difference')
     if isinstance(a, Cx) or isinstance(b, Cx):
         a, b = cx(a), cx(b)
         return Cx(sub(a.re, b.re), sub(a.im, b.im))
@@ -91,6 +136,11 @@ def mul(a, b):
     a, b = _b2i(a), _b2i(b)
     if isinstance(a, Mat) or isinstance(b, Mat):
         return mat_mul(a, b)
+    if (_is_dim(a) or _is_dim(b)) and not (isinstance(a, Cx) or isinstance(b, Cx)):
+        da, db = _dim_of(a), _dim_of(b)
+        if da is None or db is None:
+            return Dim(None)
+        return Dim(da + db)
     if isinstance(a, Cx) or isinstance(b, Cx):
         if not isinstance(a, Cx):
             return Cx(mul(a, b.re), mul(a, b.im))
@@ -120,6 +170,13 @@ def div(a, b):
         if b.kind == 'array':
             return b.map(lambda x: div(a, x))
         raise EvalError('scalar / matrix')
+    if (_is_dim(a) or _is_dim(b)) and not (isinstance(a, Cx) or isinstance(b, Cx)):
+        da, db = _dim_of(a), _dim_of(b)
+        if da is None:
+            return Dim(None)
+        if db is None:
+            raise DimError('division by an exact zero')
+        return Dim(da - db)
     if isinstance(b, Cx):
         a = cx(a)
         den = add(mul(b.re, b.re), mul(b.im, b.im))
@@ -161,6 +218,10 @@ def mod(a, b):
 
 def cmp(op, a, b):
     a, b = _b2i(a), _b2i(b)
+    if _is_dim(a) or _is_dim(b):
+        if isinstance(a, Dim) and isinstance(b, Dim) and a.d is not None and b.d is not None and a.d != b.d:
+            raise DimError('comparison of quantities with mass dimensions %s and %s' % (a.d, b.d))
+        return UnknownBool()      # comparisons with literals are tolerance tests: no dimension check
     if isinstance(a, Cx) or isinstance(b, Cx):
         a, b = cx(a), cx(b)
         if op == '==':
@@ -182,11 +243,17 @@ def cmp(op, a, b):
     return {'<': a < b, '>': a > b, '<=': a <= b, '>=': a >= b, '==': a == b, '!=': a != b}[op]
 
 def lnot(a):
+    if isinstance(a, UnknownBool):
+        return UnknownBool()
     if is_sym(a):
         return z3.Not(a)
     return not truthy(a)
 
 def land(a, b):
+    if isinstance(a, UnknownBool) or isinstance(b, UnknownBool):
+        if (not isinstance(a, UnknownBool) and not truthy(a)) or (not isinstance(b, UnknownBool) and not truthy(b)):
+            return False
+        return UnknownBool()
     if is_sym(a) or is_sym(b):
         if not is_sym(a):
             return b if truthy(a) else False
@@ -196,6 +263,10 @@ def land(a, b):
     return truthy(a) and truthy(b)
 
 def lor(a, b):
+    if isinstance(a, UnknownBool) or isinstance(b, UnknownBool):
+        if (not isinstance(a, UnknownBool) and truthy(a)) or (not isinstance(b, UnknownBool) and truthy(b)):
+            return True
+        return UnknownBool()
     if is_sym(a) or is_sym(b):
         if not is_sym(a):
             return True if truthy(a) else b
@@ -217,6 +288,12 @@ def truthy(a):
 
 def ite(c, a, b):
     """value-level if-then-else"""
+    if isinstance(c, UnknownBool):
+        if isinstance(a, Mat) or isinstance(b, Mat):
+            return mat_binop(lambda x, y: ite(c, x, y), a, b)
+        if isinstance(a, (Dim, int, float, Fraction)) and isinstance(b, (Dim, int, float, Fraction)):
+            return _dim_addsub(a, b, 'two branches of a conditional')
+        raise EvalError('units interpretation: conditional on %r' % (a,))
     if not is_sym(c):
         return a if truthy(c) else b
     if isinstance(a, Mat) or isinstance(b, Mat):
